@@ -142,9 +142,9 @@ theorem lookup_size (m : Nat) (hm : 1 ≤ m) (c : Cache) (k : Key) (v : Val) (h 
 
 /-! ### consistency of the caches -/
 
-theorem consistent_step (F : CacheId → Key → Val) (P : Key → Bool) (st : St) (o : Op)
+theorem consistent_step (F : CacheId → Key → Val) (P : CacheId → Key → Bool) (st : St) (o : Op)
     (hc : Consistent F P st.proc)
-    (ho : ∀ c k v, o = .lookup c k v → P k = true → v = F c k) : Consistent F P (step st o).1.proc := by
+    (ho : ∀ c k v, o = .lookup c k v → P c k = true → v = F c k) : Consistent F P (step st o).1.proc := by
   cases o with
   | lookup c k v =>
     intro c' e he hP
@@ -169,7 +169,7 @@ theorem consistent_step (F : CacheId → Key → Val) (P : Key → Bool) (st : S
     | nil => simp only [hd] at he; exact hc c' e he hP
     | cons s r => simp only [hd] at he; exact hc c' e he hP
 
-theorem consistent_run (F : CacheId → Key → Val) (P : Key → Bool) (p : Prog) (ht : Tame F P p) :
+theorem consistent_run (F : CacheId → Key → Val) (P : CacheId → Key → Bool) (p : Prog) (ht : Tame F P p) :
     ∀ st : St, Consistent F P st.proc → Consistent F P (run st p).st.proc := by
   induction ht with
   | done => intro st h; exact h
@@ -190,29 +190,30 @@ theorem consistent_run (F : CacheId → Key → Val) (P : Key → Bool) (p : Pro
     intro c k v e; exact absurd e (hne c k v)
 
 /-- a deterministic program is tame -/
-theorem Det.tame {F : CacheId → Key → Val} {P : Key → Bool} {h : Bool} {p : Prog} (hd : Det F P h p) : Tame F P p := by
+theorem Det.tame {F : CacheId → Key → Val} {P : CacheId → Key → Bool} {V : CacheId → Val → Val} {h : Bool} {p : Prog}
+    (hd : Det F P V h p) : Tame F P p := by
   induction hd with
   | done => exact .done
   | fail => exact .fail
   | emit _ ih => exact .emit ih
-  | lookup _ hv _ ih => exact .lookup (fun _ => hv) ih
+  | lookup _ hv _ _ ih => exact .lookup (fun _ => hv) ih
   | setHistory _ ih => exact .other (by intro c k v e; cases e) ih
   | getHistory _ ih => exact .other (by intro c k v e; cases e) ih
   | enterDir _ ih => exact .other (by intro c k v e; cases e) ih
   | leaveDir _ ih => exact .other (by intro c k v e; cases e) ih
 
-/-- with consistent caches a lookup of a `P`-key returns `F c k`, hit or miss -/
-theorem lookup_consistent_value (F : CacheId → Key → Val) (P : Key → Bool) (hcomp : Compat F P)
-    (p : Proc) (hc : Consistent F P p) (c : CacheId) (k : Key) (hP : P k = true) :
-    ((p.caches c).lookup (maxsize c) k (F c k)).1 = F c k := by
+/-- with consistent caches a lookup of a `P`-key returns, seen through the view, `F c k` — hit or miss -/
+theorem lookup_consistent_value (F : CacheId → Key → Val) (P : CacheId → Key → Bool) (V : CacheId → Val → Val)
+    (hcomp : Compat F P V) (p : Proc) (hc : Consistent F P p) (c : CacheId) (k : Key) (hP : P c k = true) :
+    V c ((p.caches c).lookup (maxsize c) k (F c k)).1 = V c (F c k) := by
   rcases lookup_value (maxsize c) (p.caches c) k (F c k) with ⟨e, he, heq, hv⟩ | h
   · obtain ⟨hPe, hF⟩ := hcomp c e.1 k hP heq
     rw [hv, hc c e he hPe, hF]
-  · exact h
+  · rw [h]
 
 /-- the core of the frame theorem for deterministic programs -/
-theorem det_core (F : CacheId → Key → Val) (P : Key → Bool) (hcomp : Compat F P) {h : Bool} {p : Prog}
-    (hd : Det F P h p) :
+theorem det_core (F : CacheId → Key → Val) (P : CacheId → Key → Bool) (V : CacheId → Val → Val)
+    (hcomp : Compat F P V) {h : Bool} {p : Prog} (hd : Det F P V h p) :
     ∀ a b : St, Consistent F P a.proc → Consistent F P b.proc → a.dirs.length = b.dirs.length →
       (h = true → a.proc.history = b.proc.history) → (run a p).out = (run b p).out := by
   induction hd with
@@ -223,12 +224,14 @@ theorem det_core (F : CacheId → Key → Val) (P : Key → Bool) (hcomp : Compa
     have := ih a b ha hb hl hh
     simp only [run, Result.out, Prod.mk.injEq] at this ⊢
     exact ⟨by rw [this.1], this.2⟩
-  | @lookup h c k v kont hP hv hk ih =>
+  | @lookup h c k v kont hP hv hinv hk ih =>
     intro a b ha hb hl hh
     subst hv
-    have ea := lookup_consistent_value F P hcomp a.proc ha c k hP
-    have eb := lookup_consistent_value F P hcomp b.proc hb c k hP
-    simp only [run, step, ea, eb]
+    have ea := lookup_consistent_value F P V hcomp a.proc ha c k hP
+    have eb := lookup_consistent_value F P V hcomp b.proc hb c k hP
+    simp only [run, step]
+    rw [hinv (.val ((a.proc.caches c).lookup (maxsize c) k (F c k)).1)
+             (.val ((b.proc.caches c).lookup (maxsize c) k (F c k)).1) (by simp only [Obs.view]; rw [ea, eb])]
     apply ih
     · exact consistent_step F P a (.lookup c k (F c k)) ha (by intro c' k' v' e _; cases e; rfl)
     · exact consistent_step F P b (.lookup c k (F c k)) hb (by intro c' k' v' e _; cases e; rfl)
@@ -273,6 +276,9 @@ theorem det_core (F : CacheId → Key → Val) (P : Key → Bool) (hcomp : Compa
         · exact hb
         · rw [hda, hdb] at hl; simpa using hl
         · exact hh
+
+/-- the identity view: every continuation is invariant -/
+theorem Obs.view_id (o : Obs) : o.view id = o := by cases o <;> rfl
 
 /-! ### the identity generator -/
 
